@@ -98,7 +98,7 @@ def seeded(case, ctx):
 def shot_case(draw, tier):
     method = draw(st.sampled_from(["poisson", "gaussian"]))
     lam = draw(st.sampled_from([0.0, 0.3, 5.0])) if (method == "poisson" and draw(st.booleans())) \
-        else draw(gen.pos_log(1e3, 1e15 if method == "poisson" else 1e12))
+        else float(np.floor(draw(gen.pos_log(1e3, 1e15 if method == "poisson" else 1e12))))
     return {"method": method, "lam": lam, "seed": draw(st.integers(0, 2**32 - 1)),
             "shape": draw(st.sampled_from([[250, 200], [100, 500], [50000, 1], [224, 224]])),
             "gradient": draw(st.booleans())}
@@ -114,6 +114,9 @@ def shot_noise_moments(case, ctx):
     ctx.tag("method:" + method, "lam:%d" % int(np.log10(lam + 1)), "nonsquare" if shape[0] != shape[1] else None)
     ctx.nontrivial_if(lam > 0)
     img = np.full(shape, lam)
+    if lam == np.floor(lam) and lam < 2**62 and case["seed"] % 3 == 0:
+        img = img.astype(np.int64)                      # integer-typed photon counts
+        ctx.tag("int_frame")
     with lentil_call("C18.shot", f"shot_noise({method}, lambda={lam:.3g})"):
         out = np.asarray(detector.shot_noise(img, method=method, seed=case["seed"]), dtype=float)
     if out.shape != shape:
@@ -167,7 +170,8 @@ def shot_noise_rejects(case, ctx):
 def read_case(draw, tier):
     return {"sigma": draw(gen.pos_log(0.1, 1e4)), "seed": draw(st.integers(0, 2**32 - 1)),
             "shape": draw(st.sampled_from([[250, 200], [100, 500], [224, 224]])), "offset": draw(gen.finite(-100, 1e4)),
-            "rate": draw(gen.finite(0.0, 5000.0)), "dshape": list(draw(gen.shape2(1, 12)))}
+            "rate": draw(gen.finite(0.0, 5000.0)), "dshape": list(draw(gen.shape2(1, 12))),
+            "frame_dtype": draw(st.sampled_from(["float", "float", "int64", "uint16", "int32"]))}
 
 
 @hyp("C18", "read_dark", lambda tier: read_case(tier),
@@ -179,15 +183,19 @@ def read_dark(case, ctx):
     sig = case["sigma"]
     ctx.tag("nonsquare" if shape[0] != shape[1] else "square")
     ctx.nontrivial_if(True)
-    base = np.full(shape, case["offset"])
-    with lentil_call("C18.read", "read_noise"):
+    dt = case.get("frame_dtype", "float")
+    level = case["offset"] if dt == "float" else float(int(abs(case["offset"])) + 200)
+    base = np.full(shape, level).astype({"float": float, "int64": np.int64, "uint16": np.uint16, "int32": np.int32}[dt])
+    ctx.tag("frame:" + dt)
+    base0 = base.copy()
+    with lentil_call("C18.read", f"read_noise({dt} frame)"):
         out = np.asarray(detector.read_noise(base, sig, seed=case["seed"]), dtype=float)
-    if not np.array_equal(base, np.full(shape, case["offset"])):
+    if not np.array_equal(base, base0) or base.dtype != base0.dtype:
         raise Violation("C18.read.input_mutated", "read_noise changed its input")
-    noise = out - case["offset"]
-    if abs(noise.mean()) > 7 * sig / np.sqrt(n) + 1e-9 * abs(case["offset"]):
+    noise = out - level
+    if abs(noise.mean()) > 7 * sig / np.sqrt(n) + 1e-9 * abs(level):
         raise Violation("C18.read.mean", f"read noise mean {noise.mean():.4g} for sigma {sig:.4g}")
-    if abs(noise.std() - sig) > 7 * sig / np.sqrt(2 * n) + 1e-9 * abs(case["offset"]):
+    if abs(noise.std() - sig) > 7 * sig / np.sqrt(2 * n) + 1e-9 * abs(level):
         raise Violation("C18.read.std", f"read noise std {noise.std():.6g}, requested {sig:.6g}")
     ds = tuple(case["dshape"])
     with lentil_call("C18.dark", "dark_current(fpn_factor=0)"):
